@@ -20,7 +20,7 @@ CLASSES = ('nonrec', 'linear', 'nonlinear', 'mixed', 'unitcycle')
 FORCED = ('edgeless-internal', 'edgeless-ext', 'edge-twice', 'nullary', 'no-edges-rule',
           'nt-without-rules', 'unreachable-nt', 'start-arity', 'zero-weight', 'inf-weight',
           'size1-domain', 'shared-factor', 'factor-twice-in-rule', 'jpre-shape', 'ext-also-attached-twice',
-          'many-rules', 'plain')
+          'many-rules', 'plain', 'unit-base')
 
 
 def rng_for(*parts):
@@ -339,6 +339,20 @@ def gen_spec(rng, cls='nonrec', forced=(), max_nodes=5, max_edges=4, wdomain='re
         dead = make_rule(X, [U] + ([X] if rng.random() < 0.3 else []), n_term=1)
         first = next(i for i, r in enumerate(rules) if r['lhs'] == X)
         rules.insert(first, dead)
+    if 'unit-base' in forced:
+        # every terminating rule becomes `X -> (its external nodes, no edge)`: weight exactly one, so the first
+        # non-zero value of every nonterminal is exactly one (log-value exactly 0)
+        seen, new = set(), []
+        for r in rules:
+            if any(lab in nts for lab, _ in r['edges']):
+                new.append(r)
+                continue
+            if r['lhs'] in seen:
+                continue
+            seen.add(r['lhs'])
+            ext_labels = [r['nodes'][v] for v in r['ext']]
+            new.append(dict(lhs=r['lhs'], nodes=ext_labels, ext=list(range(len(ext_labels))), edges=[]))
+        rules[:] = new
     if 'many-rules' in forced and rng.random() < 0.5:
         rng.shuffle(rules)
     # ---- weights
@@ -491,6 +505,9 @@ def features_of(spec, light=False):
         f.add('start-arity')
     if any(s == 1 for s in spec['domains'].values()):
         f.add('size1-domain')
+    term_rules = [r for r in spec['rules'] if not any(lab in nts for lab, _ in r['edges'])]
+    if term_rules and all(not r['edges'] and len(r['nodes']) == len(r['ext']) for r in term_rules):
+        f.add('unit-base')
     tcount = {}
     for r in spec['rules']:
         att_all = [v for _, att in r['edges'] for v in att]
